@@ -51,7 +51,7 @@ def k0_normal_form(fn, with_lscale):
     symbols = {a[1]: "X", a[2]: "Y", "self.length_scale": "L", "self.alpha": "alpha"}
     if with_lscale:
         symbols[a[3]] = "L"
-    nz = en.Normaliser(symbols)
+    nz = en.Normaliser(symbols, positive=("L", "alpha"))
     r = nz.run(fn.body)
     if r is None:
         raise en.NotComparable("no unconditional return")
@@ -62,9 +62,30 @@ def k0_normal_form(fn, with_lscale):
     return nz.expr(r)
 
 
+def k0_method_names(base):
+    """names of the per-dimension-factor routines of the additive mixin, found through its public methods:
+    `k0, dk0 = self.<m>(X, Y, ..)` in k_and_deriv (evaluation) and in __call__ (training)"""
+    out = []
+    for pub in ("k_and_deriv", "__call__"):
+        fn = pf.methods(base).get(pub)
+        if fn is None:
+            raise core.AnalysisError("DiffAdditiveMixin.%s vanished" % pub)
+        hit = None
+        for n in pf.walk_no_nested(fn):
+            if isinstance(n, ast.Assign) and isinstance(n.targets[0], ast.Tuple) and len(n.targets[0].elts) == 2 \
+                    and isinstance(n.value, ast.Call) and pf.is_self_attr(n.value.func) \
+                    and (hit is None or n.lineno < hit.lineno):
+                hit = n
+        if hit is None:
+            raise core.AnalysisError("DiffAdditiveMixin.%s no longer unpacks `k0, dk0 = self.<routine>(X, Y, ..)`" % pub)
+        out.append(hit.value.func.attr)
+    return out
+
+
 def rule_k0_factor(chk, prog):
     mod = prog.module(KN)
     base = mod.cls("DiffAdditiveMixin")
+    k0_methods = k0_method_names(base)
     seen = set()
     ncls = 0
     for m, c in prog.subclasses("DiffAdditiveMixin"):
@@ -76,7 +97,7 @@ def rule_k0_factor(chk, prog):
             continue  # not mappable; dispatch-total decides whether that matters
         owner = rm[1].name
         others = []
-        for other in ("_get_k0_dk0_eval", "_get_k0_dk0_train"):
+        for other in k0_methods:
             ro = prog.find_method(m, c, other)
             if ro is None or ro[1] is base:
                 chk.violation("k0-factor", m.rel, c.name, "%s.%s" % (c.name, other), c.lineno,
@@ -97,8 +118,15 @@ def rule_k0_factor(chk, prog):
             chk.note("k0-factor", "%s:%s" % (m.rel, owner), "not comparable: %s" % ex)
             continue
         diff = [(other, nf) for other, nf in nfs if nf != nf_map]
+        undecided = [o for o, nf in diff if not en.definitely_different(nf_map, nf)]
         if not diff:
             chk.ok("k0-factor", inst, detail=en.show(nf_map)[:200])
+        elif undecided:
+            chk.ok("k0-factor", inst + " not comparable", nontrivial=False)
+            chk.note("k0-factor", "%s:%s" % (m.rel, owner),
+                     "normal forms differ but contain non-injective opaque functions (abs/sign/sqrt/..), for which "
+                     "identities exist that the normal form does not apply: mapping %s vs kernel %s" % (
+                         en.show(nf_map)[:160], en.show(diff[0][1])[:160]))
         else:
             chk.violation("k0-factor", m.rel, "%s.get_k0_for_mapping" % owner,
                           pf.src(rm[2].body[0]) if rm[2].body else owner, rm[2].lineno,
@@ -267,10 +295,14 @@ def rule_rbf_extract(chk, prog, tree):
                 chk.ok("rbf-extract", inst)
     # _exps = 0.5 / length_scale**2
     fn = er.anchor(prog, XE, "RBFEvaluator.__init__")[1]
+    # the exponent array: the attribute __init__ computes from the kernel's length scale
     stores = [n for n in pf.walk_no_nested(fn) if isinstance(n, ast.Assign) and len(n.targets) == 1
-              and pf.is_self_attr(n.targets[0], "_exps")]
+              and pf.is_self_attr(n.targets[0])
+              and any(isinstance(x, ast.Attribute) and x.attr == "length_scale" for x in ast.walk(n.value))
+              and not any(isinstance(x, ast.Call) and pf.call_name(x) == "len" for x in ast.walk(n.value))]
     if len(stores) != 1:
-        raise core.AnalysisError("RBFEvaluator.__init__: expected one assignment to self._exps")
+        raise core.AnalysisError("RBFEvaluator.__init__: expected exactly one attribute computed from length_scale")
+    exps_attr = stores[0].targets[0].attr
     v = stores[0].value
     while isinstance(v, ast.Call) and pf.call_name(v) in ("np.ascontiguousarray", "np.asarray", "np.array") and v.args:
         v = v.args[0]
@@ -278,7 +310,7 @@ def rule_rbf_extract(chk, prog, tree):
     if not lsc:
         raise core.AnalysisError("self._exps is not computed from a length_scale: %s" % pf.src(v))
     nz = en.Normaliser({lsc[0]: "L"})
-    inst = "RBFEvaluator._exps == 1/2 * L**-2"
+    inst = "RBFEvaluator exponent array == 1/2 * L**-2"
     try:
         nf = nz.expr(v)
     except en.NotComparable as ex:
@@ -292,18 +324,18 @@ def rule_rbf_extract(chk, prog, tree):
                       "exp(-1/2 sum_j ((x_j-c_j)/L_j)**2) exps must be 1/2*L^-2, found %s" % en.show(nf),
                       instance=inst)
     # C side: the quadratic form
+    nb = er.native_binding(prog.module(XE), prog.module(XE).cls("RBFEvaluator"))
+    if nb is None:
+        raise core.AnalysisError("RBFEvaluator binds no native function (<attr> = <lib>.<function>)")
     call = [n for n in pf.walk_no_nested(er.anchor(prog, XE, "RBFEvaluator.__call__")[1])
-            if isinstance(n, ast.Call) and pf.is_self_attr(n.func, "_fn")]
+            if isinstance(n, ast.Call) and pf.is_self_attr(n.func, nb[0])]
     if len(call) != 1:
         raise core.AnalysisError("RBFEvaluator.__call__: native call not found")
-    idx = [i for i, a in enumerate(call[0].args) if "self._exps" in pf.src(a)]
+    idx = [i for i, a in enumerate(call[0].args) if any(pf.is_self_attr(x, exps_attr) for x in ast.walk(a))]
     if len(idx) != 1:
-        raise core.AnalysisError("self._exps is not passed exactly once to the native kernel")
+        raise core.AnalysisError("self.%s is not passed exactly once to the native kernel" % exps_attr)
     tu = cfacts.TU(tree, MU_C)
-    cname = pf.class_attrs(prog.module(XE).cls("RBFEvaluator")).get("_fn")
-    cfn = er.native_name(cname) if cname is not None else None
-    if cfn is None:
-        raise core.AnalysisError("RBFEvaluator._fn is not `<lib>.<function>` / getattr(<lib>, \"<function>\")")
+    cfn = nb[1]
     params = tu.params(cfn)
     if idx[0] >= len(params):
         raise core.AnalysisError("%s has fewer parameters than the ctypes call" % cfn)
@@ -428,12 +460,21 @@ def rule_dispatch(chk, prog):
         raise core.AnalysisError("no isinstance test constrains `%s` before the k0 ladder" % var)
     # concrete candidates: repo classes whose MRO contains an accepted class and that carry `indexes`
     # (the function reads arbf.indexes), i.e. have _SubsetMixin in their MRO
+    # classes that carry `indexes` (the mapper reads arbf.indexes): a base class whose __init__ stores self.indexes
+    index_carriers = set()
+    for m0, c0 in prog.all_classes():
+        init = pf.methods(c0).get("__init__")
+        if init is not None and any(isinstance(n, ast.Assign) and any(pf.is_self_attr(t, "indexes") for t in n.targets)
+                                    for n in pf.walk_no_nested(init)):
+            index_carriers.add(c0.name)
+    if not index_carriers:
+        raise core.AnalysisError("no kernel class stores self.indexes")
     concrete = {}
     for m, c in prog.all_classes():
         if m.rel != KN:
             continue
         mro = [cc.name for _, cc in prog.mro(m, c)]
-        if "_SubsetMixin" in mro and any(a in mro for a in accepted):
+        if any(cc.name in index_carriers for _, cc in prog.mro(m, c)) and any(a in mro for a in accepted):
             concrete[c.name] = (m, c, mro)
     if len(concrete) < 3:
         raise core.AnalysisError("fewer than 3 subset kernel classes accepted by the additive mapper: %s" % sorted(concrete))
@@ -947,9 +988,9 @@ def rule_grad_pairing(chk, prog, tree):
     xe = prog.module(XE)
     bound = {}
     for cname, cls in xe.classes.items():
-        v = pf.class_attrs(cls).get("_fn")
-        if v is not None and er.native_name(v):
-            bound[er.native_name(v)] = cname
+        nb = er.native_binding(xe, cls)
+        if nb is not None:
+            bound[nb[1]] = cname
     if len(bound) < 3:
         raise core.AnalysisError("fewer than 3 evaluator classes bind a native kernel through `_fn`")
     tu = cfacts.TU(tree, MU_C)
@@ -1019,6 +1060,8 @@ def _analyse_own(chk):
     chk.assumptions += [
         "sklearn's RBF is exp(-1/2 sum_j ((x_j - y_j)/length_scale_j)**2) (frozen reference)",
         "indexes that only insert axes ([:, None], [np.newaxis, :, :]) do not change the per-dimension factor",
+        "length scales and alpha are > 0 (abs(a / L) = abs(a) / L); normal forms that differ but contain abs/sign/"
+        "sqrt/trigonometric atoms are reported as not comparable, never as a violation",
     ]
     chk.not_decided += [
         "numerical agreement of the mapped evaluator with the GP sum; spline error vs grid density",
